@@ -79,7 +79,12 @@ def run_bulk(v, pid, wd, thorough):
     for mode, splice, buffer in IO_MODES:
         scale = 1 if buffer > 1 else 0        # bufferSize 1 moves one byte per loop iteration: keep it small there
         rev = bb.TcpOrigin()
-        topo = scen.Topology(wd, "bulk_" + mode, splice=splice, buffer=buffer, reverse_target="127.0.0.1:%d" % rev.port).start()
+        fakes = {"fakehttp": bb.FakeUpstream("http"), "fakesocks": bb.FakeUpstream("socks5")}
+        for f in fakes.values():
+            # every third reply plain; otherwise cut into segments, payload glued behind it, or both
+            f.policy = lambda k: {"glue": bb.payload("glue%d" % k, 1 + 211 * (k % 7)) if k % 3 != 2 else b"", "split": k % 2 == 0}
+        topo = scen.Topology(wd, "bulk_" + mode, splice=splice, buffer=buffer, reverse_target="127.0.0.1:%d" % rev.port,
+                             fake={"fakehttp": ("http", fakes["fakehttp"].port), "fakesocks": ("socks", fakes["fakesocks"].port)}).start()
         jobs = []
         MB = 1 << 20
         if scale:
@@ -88,6 +93,13 @@ def run_bulk(v, pid, wd, thorough):
             if thorough:
                 jobs += [("http", "upsocks4", 16 * MB, 16 * MB, 2.0), ("socks5", "uphttp", 12 * MB, 1, 2.5)]
             jobs += [(["http", "socks5", "socks4"][k % 3], "direct", 512 * 1024 + k, 300 * 1024 + k, 0.2) for k in range(8)]
+            # receivers that stay slow to the very end: the proxy still holds data when the sender's FIN arrives
+            # (read size, pause per read, SO_RCVBUF of the receiver); with these the tail of a transfer was lost by the original splice loop
+            grid = [(65536, 0.001, 262144), (262144, 0.001, 16384), (262144, 0.01, 16384), (16384, 0.001, 16384), (16384, 0.003, 262144), (65536, 0.003, 4 * MB)]
+            nslow = 36 if thorough else 18
+            for k in range(nslow):
+                up = k % 2 == 0
+                jobs.append((["http", "socks5", "socks4"][k % 3], "direct" if k % 6 else "uphttp", 8 * MB if up else 0, 0 if up else 8 * MB, 0.0, grid[k % len(grid)]))
         else:
             jobs += [("http", "direct", 40000, 30000, 0.3), ("socks5", "direct", 20000, 50000, 0.0)]
         out = []
@@ -96,7 +108,7 @@ def run_bulk(v, pid, wd, thorough):
         def job(k, j):
             org = bb.TcpOrigin()
             try:
-                r = scen.bulk_tunnel(topo, j[0], j[1], org, "%s/bulk%d" % (mode, k), j[2], j[3], pause_reader=j[4])
+                r = scen.bulk_tunnel(topo, j[0], j[1], org, "%s/bulk%d" % (mode, k), j[2], j[3], pause_reader=j[4], slow_reader=j[5] if len(j) > 5 else None)
             except Exception as e:
                 r = {"tag": "%s/bulk%d" % (mode, k), "established": False, "exception": repr(e)}
             r["mode"] = mode
@@ -104,13 +116,26 @@ def run_bulk(v, pid, wd, thorough):
                 out.append(r)
             org.close()
         ths = [threading.Thread(target=job, args=(k, j)) for k, j in enumerate(jobs)]
-        for t in ths:
-            t.start()
-        for t in ths:
-            t.join()
+        for b in range(0, len(ths), 14):         # batches: the slow receivers must not starve each other
+            for t in ths[b:b + 14]:
+                t.start()
+            for t in ths[b:b + 14]:
+                t.join()
+        # upstream proxies whose success reply arrives in pieces / with payload glued behind it (sequential: the policy goes by arrival order)
+        for fk, (up, f) in enumerate(fakes.items()):
+            for k in range(12 if scale else 4):
+                proto = ["http", "socks5", "socks4"][k % 3]
+                try:
+                    r = scen.early_reply_tunnel(topo, proto, up, f, "%s/early%d_%d" % (mode, fk, k), n_up=3000 + 97 * k if scale else 300, n_down=5000 + 31 * k if scale else 200)
+                except OSError as e:
+                    r = {"tag": "%s/early%d_%d" % (mode, fk, k), "established": False, "exception": repr(e)}
+                r["mode"] = mode
+                out.append(r)
         time.sleep(1.3)
         topo.stop()
         rev.close()
+        for f in fakes.values():
+            f.close()
         trace = topo.p1.trace()
         for r in out:
             if not r.get("established"):
